@@ -10,10 +10,10 @@ def fmtSym (name : String) : String :=
   match name with
   | "or" => "||" | "and" => "&&" | "xor" => "⊻" | "eq" => "⩵" | "ne" => "≠" | "lt" => "<" | "le" => "≤" | "gt" => ">" | "ge" => "≥"
   | "add" => "+" | "sub" => "-" | "mul" => "*" | "div" => "/" | "mod" => "%" | "pow" => "^"
-  | "matmul" => "**" | "dot" => "·" | "cross" => "⨯" | "solve" => "\\"
   | "join" => "⋈" | "ljoin" => "⟕" | "rjoin" => "⟖" | "fjoin" => "⟗" | "semi" => "⋉" | "anti" => "▷"
   | "union" => "∪" | "inter" => "∩" | "diff" => "∖" | "symdiff" => "Δ" | "subset" => "⊆" | "superset" => "⊇"
-  | "psubset" => "⊊" | "psuperset" => "⊋" | "elem" => "∈" | "notelem" => "∉" | _ => "?"
+  | "psubset" => "⊊" | "psuperset" => "⊋" | "elem" => "∈" | "notelem" => "∉"
+  | "matmul" => "**" | "dot" => "·" | "cross" => "⨯" | "solve" => "\\" | _ => "?"
 
 open Formula in
 mutual
@@ -22,7 +22,7 @@ partial def fmtA (lits : List String) : Fac → String
   | .atom n => lits.getD n "?"
   | .paren t => "(" ++ fmtT lits t ++ ")"
   | .neg a => "-" ++ fmtA lits a
-  | .not a => "¬" ++ fmtA lits a
+  | .not a => "!" ++ fmtA lits a
   | .tr a => fmtA lits a ++ "'"
 /-- text of a formula: the in-order sequence `fmt t`, operators between single spaces -/
 partial def fmtT (lits : List String) (t : Tree Fac) : String :=
